@@ -31,6 +31,7 @@ struct Access {
     bool flexible = false; int bufkind = 0;     // flexible API: layout of the user buffer datatype
     int invalid = INV_NONE;
     int reqslot = -1;              // nonblocking: slot in the rank's request table
+    int vrank = -1;                // rank number used to derive the written values (-1 = the executing rank); lets C10 re-map a program onto other ranks with identical data
     // ---- filled by the annotator (never serialised as input)
     int exp_rc = 0; bool rc_any = false;  // expected return code / any error code acceptable
     std::vector<long long> values;        // put: values to write; get: expected values (selection order)
